@@ -376,6 +376,26 @@ func checkRestoreReplaces(p *Program, r *Report, rule, name string, floor int) {
 		}
 		return m
 	}
+	putsMemo := map[*ssa.Function]map[storeField]bool{}
+	putsIn := func(f *ssa.Function) map[storeField]bool {
+		if m, ok := putsMemo[f]; ok {
+			return m
+		}
+		m := map[storeField]bool{}
+		putsMemo[f] = m
+		for g := range p.StaticReach(f) {
+			for _, b := range g.Blocks {
+				for _, in := range b.Instrs {
+					if ci, ok := in.(ssa.CallInstruction); ok {
+						if _, sf, ok := storeFieldOfInvoke(ci.Common(), "Put"); ok {
+							m[sf] = true
+						}
+					}
+				}
+			}
+		}
+		return m
+	}
 	type site struct {
 		in ssa.Instruction
 		sf storeField
@@ -409,6 +429,12 @@ func checkRestoreReplaces(p *Program, r *Report, rule, name string, floor int) {
 				if sc := cc.StaticCallee(); sc != nil && p.owns(sc) && len(sc.Blocks) > 0 {
 					for sf := range deletes(sc) {
 						clears = append(clears, site{in, sf})
+					}
+					// a helper of the restore function that fills a store (Put without Delete)
+					for sf := range putsIn(sc) {
+						if !deletes(sc)[sf] {
+							puts = append(puts, site{in, sf})
+						}
 					}
 				}
 			}
@@ -553,4 +579,362 @@ func checkMaximumIsAPosition(p *Program, r *Report, rule string, floor int) {
 		}
 	}
 	r.Floor(rule, "comparisons of a value with the biggest position of a row", n, floor)
+}
+
+// ---------------------------------------------------------------------------
+// R03f (strengthened in round 8): a list counts as checked against the zero
+// hash only if the compared element is read at an index that runs over the
+// whole of *that* list. elementOfPartialScan reports the positive evidence of
+// the opposite: the element is list[idx] where idx is the counter of a loop
+// whose exit test bounds it by the length of another list (a single pass over
+// two lists of different lengths leaves the tail of the longer one unchecked -
+// the proof hashes beyond the number of targets).
+func elementOfPartialScan(v ssa.Value) (bool, string) {
+	u, ok := v.(*ssa.UnOp)
+	if !ok || u.Op != token.MUL {
+		return false, ""
+	}
+	ia, ok := u.X.(*ssa.IndexAddr)
+	if !ok {
+		return false, ""
+	}
+	idx := ia.Index
+	if c, ok := idx.(*ssa.Convert); ok {
+		idx = c.X
+	}
+	// the counter and the value compared by the loop's exit test
+	var phi *ssa.Phi
+	switch x := idx.(type) {
+	case *ssa.Phi:
+		phi = x
+	case *ssa.BinOp: // range loops index with counter+1
+		if p, ok := x.X.(*ssa.Phi); ok && x.Op == token.ADD {
+			phi = p
+		}
+	}
+	if phi == nil || len(latches(phi.Block())) == 0 {
+		return false, ""
+	}
+	inLoop := func(b *ssa.BasicBlock) bool {
+		if !phi.Block().Dominates(b) {
+			return false
+		}
+		for _, l := range latches(phi.Block()) {
+			if b == l || reachableBlocks([]*ssa.BasicBlock{b})[l] {
+				return true
+			}
+		}
+		return false
+	}
+	// exit tests of the loop on the counter: If whose one successor leaves the loop
+	ownBound, otherBound := false, ""
+	fn := phi.Parent()
+	for _, b := range fn.Blocks {
+		if !inLoop(b) || len(b.Instrs) == 0 {
+			continue
+		}
+		iff, ok := b.Instrs[len(b.Instrs)-1].(*ssa.If)
+		if !ok {
+			continue
+		}
+		exits := false
+		for _, s := range b.Succs {
+			if !inLoop(s) {
+				exits = true
+			}
+		}
+		if !exits {
+			continue
+		}
+		bo, ok := iff.Cond.(*ssa.BinOp)
+		if !ok {
+			continue
+		}
+		onCounter := func(x ssa.Value) bool {
+			if c, ok := x.(*ssa.Convert); ok {
+				x = c.X
+			}
+			if x == ssa.Value(phi) || x == idx {
+				return true
+			}
+			if b2, ok := x.(*ssa.BinOp); ok && b2.Op == token.ADD && b2.X == ssa.Value(phi) {
+				return true
+			}
+			return false
+		}
+		var bound ssa.Value
+		switch {
+		case onCounter(bo.X):
+			bound = bo.Y
+		case onCounter(bo.Y):
+			bound = bo.X
+		default:
+			continue
+		}
+		call, ok := bound.(*ssa.Call)
+		if !ok || builtinName(call.Common()) != "len" || len(call.Common().Args) != 1 {
+			continue
+		}
+		if sameValue(call.Common().Args[0], ia.X) || call.Common().Args[0] == ia.X {
+			ownBound = true
+		} else {
+			otherBound = "the loop ends with the length of another list (" + call.Common().Args[0].Name() + ")"
+		}
+	}
+	if !ownBound && otherBound != "" {
+		return true, otherBound
+	}
+	return false, ""
+}
+
+// ---------------------------------------------------------------------------
+// R15m REBUILT-TABLE-STARTS-EMPTY. A method that rebuilds a table of the
+// receiver (a slice of slices: allocates it with make and fills its rows by
+// append) must allocate on every path that fills: a row that is appended to
+// without the table having been re-made in this call still holds the entries
+// of the previous run, which are then listed twice. (A method that never
+// allocates the table - an incremental recorder - is not concerned.)
+
+func checkRebuiltTableStartsEmpty(p *Program, r *Report, rule string, floor int) {
+	n := 0
+	for _, fn := range sortedFuncs(p, ownedFuncSet(p)) {
+		if fn.Signature.Recv() == nil || len(fn.Params) == 0 || fn.Blocks == nil {
+			continue
+		}
+		recv := fn.Params[0]
+		// stores of a fresh make into a receiver field of type [][]T
+		makes := map[int][]*ssa.Store{}
+		var fills []struct {
+			in    ssa.Instruction
+			field int
+		}
+		for _, b := range fn.Blocks {
+			for _, in := range b.Instrs {
+				switch x := in.(type) {
+				case *ssa.Store:
+					fa, ok := x.Addr.(*ssa.FieldAddr)
+					if !ok || !isRecvValue(fa.X, recv) {
+						continue
+					}
+					if _, isMake := x.Val.(*ssa.MakeSlice); !isMake {
+						continue
+					}
+					if sl, ok := x.Val.Type().Underlying().(*types.Slice); ok {
+						if _, inner := sl.Elem().Underlying().(*types.Slice); inner {
+							makes[fa.Field] = append(makes[fa.Field], x)
+						}
+					}
+				case *ssa.Call:
+					if builtinName(x.Common()) != "append" || len(x.Common().Args) != 2 {
+						continue
+					}
+					// append(recv.F[i], ...)
+					u, ok := x.Common().Args[0].(*ssa.UnOp)
+					if !ok || u.Op != token.MUL {
+						continue
+					}
+					ia, ok := u.X.(*ssa.IndexAddr)
+					if !ok {
+						continue
+					}
+					u2, ok := ia.X.(*ssa.UnOp)
+					if !ok || u2.Op != token.MUL {
+						continue
+					}
+					fa, ok := u2.X.(*ssa.FieldAddr)
+					if !ok || !isRecvValue(fa.X, recv) {
+						continue
+					}
+					fills = append(fills, struct {
+						in    ssa.Instruction
+						field int
+					}{x, fa.Field})
+				}
+			}
+		}
+		seen := map[int]bool{}
+		for _, f := range fills {
+			if len(makes[f.field]) == 0 || seen[f.field] {
+				continue
+			}
+			seen[f.field] = true
+			n++
+			fname := fieldName(recv.Type(), f.field)
+			key := fmt.Sprintf("%s/%s/remade-before-filled", p.FuncName(fn), fname)
+			var bad ssa.Instruction
+			for _, g := range fills {
+				if g.field != f.field {
+					continue
+				}
+				ok := false
+				for _, mk := range makes[f.field] {
+					if dominatesInstr(mk, g.in) {
+						ok = true
+					}
+				}
+				if !ok && bad == nil {
+					bad = g.in
+				}
+			}
+			if bad != nil {
+				r.Violate(rule, key, posOf(p, bad), "the method re-makes the receiver's table "+fname+" only on some paths but appends to its rows on all: on a path that skips the allocation the rows still hold the entries of the previous run and every entry is listed again", "in "+p.FuncName(fn))
+			} else {
+				r.Discharge(rule, key, posOf(p, makes[f.field][0]), "the allocation of the table dominates every append to its rows", true)
+			}
+		}
+	}
+	r.Floor(rule, "tables of a receiver that a method re-makes and fills by append", n, floor)
+}
+
+func ownedFuncSet(p *Program) map[*ssa.Function]bool {
+	out := map[*ssa.Function]bool{}
+	for _, f := range p.Funcs {
+		if f.Blocks != nil && p.owns(f) {
+			out[f] = true
+		}
+	}
+	return out
+}
+
+// ---------------------------------------------------------------------------
+// R14n RESTRICTION-RECOMPUTES. The proof of a subset of the held targets is
+// made of proof hashes of the held proof *and* of nodes that are computed
+// from the targets that are dropped (a dropped sibling, the parent of two
+// dropped leaves). The restriction therefore runs the hashing core on every
+// path to a success return; a path that skips it (say, because the held proof
+// carries no proof hashes) can only ever return what the held proof had.
+
+func checkRestrictionRecomputes(p *Program, r *Report, rule, name, core string) {
+	fn, cf := p.Func(name), p.Func(core)
+	if fn == nil || cf == nil {
+		r.MissingAnchor(rule, name+" / "+core, "proof restriction or hashing core not found")
+		return
+	}
+	var calls []ssa.Instruction
+	for _, sc := range callsIn(p, fn) {
+		callee := sc.call.Common().StaticCallee()
+		if callee == nil {
+			continue
+		}
+		if callee == cf || (p.owns(callee) && p.StaticReach(callee)[cf]) {
+			calls = append(calls, sc.call)
+		}
+	}
+	ei := errorResultIndex(fn.Signature)
+	n := 0
+	for _, ret := range returnsOf(fn) {
+		ops := retOperands(ret)
+		if ei >= 0 && ei < len(ops) && !isNilConst(ops[ei]) {
+			continue // a failing return
+		}
+		n++
+		key := fmt.Sprintf("%s/success#%d/recomputed", name, n)
+		ok := false
+		for _, c := range calls {
+			if dominatesInstr(c, ret) {
+				ok = true
+			}
+		}
+		if ok {
+			r.Discharge(rule, key, posOf(p, ret), "the hashing core runs on every path to this success return", true)
+		} else {
+			r.Violate(rule, key, posOf(p, ret), "a success return of the proof restriction can be reached without the hashing core having run: the proof of a subset needs nodes computed from the dropped targets (a dropped sibling, the parent of two dropped leaves) also when the held proof carries no proof hashes at all", "in "+name)
+		}
+	}
+	r.Floor(rule, "success returns of the proof restriction", n, 1)
+}
+
+// ---------------------------------------------------------------------------
+// R16g ROW-ZERO-ENDS-BEFORE-ONE-SHIFTED. In a layout of `rows` rows the
+// positions of row 0 are 0 .. (1<<rows)-1 and 1<<rows is the first position of
+// row 1. A *position* compared with 1<<rows is therefore compared strictly:
+// pos < 1<<rows is "on row 0", pos >= 1<<rows is "above it". pos <= 1<<rows
+// takes the first node of row 1 for a leaf slot (seed C09-r8m1: remap left a
+// remembered leaf that had moved up to exactly that position untranslated).
+// A value is a position by role: it is handed, in the same function, to a
+// package function in the parameter slot named position/pos, or it is the
+// value a leaf-index iteration / look-up yields. Counts (numLeaves <= 1<<rows
+// is right) are never positions in that sense.
+
+func checkRowZeroTestStrict(p *Program, r *Report, rule string) {
+	isOneShifted := func(v ssa.Value) bool {
+		if c, ok := v.(*ssa.Convert); ok {
+			v = c.X
+		}
+		bo, ok := v.(*ssa.BinOp)
+		if !ok || bo.Op != token.SHL {
+			return false
+		}
+		x := bo.X
+		if c, ok := x.(*ssa.Convert); ok {
+			x = c.X
+		}
+		c, ok := x.(*ssa.Const)
+		return ok && c.Value != nil && c.Value.String() == "1"
+	}
+	n := 0
+	for _, fn := range sortedFuncs(p, ownedFuncSet(p)) {
+		// positions by role
+		pos := map[ssa.Value]bool{}
+		for _, b := range fn.Blocks {
+			for _, in := range b.Instrs {
+				ci, ok := in.(ssa.CallInstruction)
+				if !ok {
+					continue
+				}
+				cc := ci.Common()
+				if sc := cc.StaticCallee(); sc != nil && p.owns(sc) {
+					for i, par := range sc.Params {
+						nm := strings.ToLower(par.Name())
+						if (nm == "pos" || nm == "position") && i < len(cc.Args) {
+							pos[cc.Args[i]] = true
+						}
+					}
+				}
+			}
+		}
+		// the uint64 value parameter of a closure iterating the leaf index
+		if fn.Parent() != nil && len(fn.Params) == 2 {
+			if isHashType(fn.Params[0].Type()) {
+				if b, ok := fn.Params[1].Type().Underlying().(*types.Basic); ok && b.Kind() == types.Uint64 {
+					pos[fn.Params[1]] = true
+				}
+			}
+		}
+		if len(pos) == 0 {
+			continue
+		}
+		idx := 0
+		for _, b := range fn.Blocks {
+			for _, in := range b.Instrs {
+				bo, ok := in.(*ssa.BinOp)
+				if !ok {
+					continue
+				}
+				var op token.Token
+				switch {
+				case pos[bo.X] && isOneShifted(bo.Y):
+					op = bo.Op
+				case pos[bo.Y] && isOneShifted(bo.X):
+					op = map[token.Token]token.Token{token.LSS: token.GTR, token.GTR: token.LSS, token.LEQ: token.GEQ, token.GEQ: token.LEQ}[bo.Op]
+				default:
+					continue
+				}
+				switch op {
+				case token.LSS, token.GEQ, token.LEQ, token.GTR:
+				default:
+					continue
+				}
+				idx++
+				n++
+				key := fmt.Sprintf("%s/position-vs-row-zero-width#%d", p.FuncName(fn), idx)
+				if op == token.LSS || op == token.GEQ {
+					r.Discharge(rule, key, posOf(p, bo), "the position is compared strictly with 1<<rows", true)
+				} else {
+					r.Violate(rule, key, posOf(p, bo), "a position is compared with 1<<rows using "+map[token.Token]string{token.LEQ: "pos <= 1<<rows", token.GTR: "pos > 1<<rows"}[op]+": row 0 ends at (1<<rows)-1 and 1<<rows is the first position of row 1, which is taken for a leaf slot here", "in "+p.FuncName(fn))
+				}
+			}
+		}
+	}
+	_ = n // no instance on the reviewed tree: the rule is kept alive by its controls
 }
